@@ -1,6 +1,8 @@
 package pipe
 
 import (
+	"bytes"
+	"compress/gzip"
 	"io"
 	"math/rand"
 	"os"
@@ -23,6 +25,54 @@ type Source struct {
 	Raw    []byte   // the byte stream
 	Chunks []Chunk  // delivery script; if empty the stream is delivered at once
 	FIFO   bool     // file mode only: the path is a named pipe fed by FeedFIFO
+	Gz     bool     // file mode only: the file on disk holds gzip(Raw) (read with Scenario.Gunzip)
+	// GzSplit, when 0 < GzSplit < len(Raw), makes the gzip file a concatenation of two members
+	// (gzip(Raw[:GzSplit]) ++ gzip(Raw[GzSplit:])), which decodes to Raw (RFC 1952, `cat a.gz b.gz`).
+	GzSplit int
+}
+
+// Kind names the way the source is opened: "fifo", "gz", "plain" (regular file) or "stream" (no name).
+func (s *Source) Kind() string {
+	switch {
+	case s.FIFO:
+		return "fifo"
+	case s.Gz:
+		return "gz"
+	case len(s.Name) > 0 && s.Name[0] == '/':
+		return "plain"
+	}
+	return "stream"
+}
+
+// DiskBytes returns what WriteFile puts on disk: Raw, or a gzip stream of Raw when Gz is set.
+func (s *Source) DiskBytes() ([]byte, error) {
+	if !s.Gz {
+		return s.Raw, nil
+	}
+	var buf bytes.Buffer
+	parts := [][]byte{s.Raw}
+	if s.GzSplit > 0 && s.GzSplit < len(s.Raw) {
+		parts = [][]byte{s.Raw[:s.GzSplit], s.Raw[s.GzSplit:]}
+	}
+	for _, part := range parts {
+		zw := gzip.NewWriter(&buf)
+		if _, err := zw.Write(part); err != nil {
+			return nil, err
+		}
+		if err := zw.Close(); err != nil {
+			return nil, err
+		}
+	}
+	return buf.Bytes(), nil
+}
+
+// WriteFile materialises a regular-file source at Name.
+func (s *Source) WriteFile() error {
+	b, err := s.DiskBytes()
+	if err != nil {
+		return err
+	}
+	return os.WriteFile(s.Name, b, 0o600)
 }
 
 // ContentOpts controls BuildRaw.
@@ -148,8 +198,15 @@ func FeedFIFO(src *Source, abort <-chan struct{}) error {
 	}
 	defer f.Close()
 	chunks := src.Chunks
-	if len(chunks) == 0 && len(src.Raw) > 0 {
-		chunks = []Chunk{{N: len(src.Raw)}}
+	raw := src.Raw
+	if src.Gz { // the pipe carries the gzip stream; the chunk script (sizes of Raw) does not apply
+		if raw, err = src.DiskBytes(); err != nil {
+			return err
+		}
+		chunks = nil
+	}
+	if len(chunks) == 0 && len(raw) > 0 {
+		chunks = []Chunk{{N: len(raw)}}
 	}
 	off := 0
 	for _, c := range chunks {
@@ -160,7 +217,7 @@ func FeedFIFO(src *Source, abort <-chan struct{}) error {
 			case <-time.After(time.Duration(c.DelayMs) * time.Millisecond):
 			}
 		}
-		if _, err := f.Write(src.Raw[off : off+c.N]); err != nil {
+		if _, err := f.Write(raw[off : off+c.N]); err != nil {
 			return err
 		}
 		off += c.N
